@@ -10,7 +10,7 @@ import (
 
 func sizesSmall(g *vlib.G) []int { return vlib.Ints(1, vlib.Pick(g, 6, 7)) }
 func sizesBig(g *vlib.G) []int {
-	return vlib.Pick(g, []int{32, 33, 64}, []int{31, 32, 33, 63, 64, 65})
+	return vlib.Pick(g, []int{32, 33}, []int{31, 32, 33, 63, 64, 65})
 }
 func variants(g *vlib.G) int {
 	v := vlib.Pick(g, 2, 3)
